@@ -1,16 +1,62 @@
 import Ptn.C06.Model
 import Ptn.C05.Driver
+import Ptn.C06.GaugeModel
+import Ptn.C17.Driver
 /-! Line-protocol handler for C06 (core Lean only).
 
   sweepend first|second|twosite <start> <last> <u0:h0> …  → centre after the events of one step
                                                             (before `_reset_for_next_time_step` in
                                                             the first-order variant), or `none`
+  gauge first|second|twosite <k> canon|move:<c0> tree <root|-> <node> …
+        (tree tokens as in `C17 struct tree`) → the gauge machine `Ptn.C06.Gauge` on the tree:
+        `ok init <ops> | step <ops> | rec <record> | good|notgood`
+        init: the factorisations of the constructor (`canon`: `canonical_form(s)` on a state without centre, C03
+        `canonOps`; `move:<c0>`: the state is canonical at `c0`, QR hops along the way to the first node `s` of the
+        sweep); step: the factorisations (`qr a>b` / `svd a>b`) of ONE time step in order; rec: the record
+        (`x>y`, `x>-` without record) after `k` steps; `good`: the model's own check (`allGoodB`) of every event of
+        the `k` steps and canonical at `s` at the end; `err` where the code raises (second / twosite on one node).
 -/
 namespace Ptn.C06
 open Ptn.C05
 
+open Ptn.C17 Ptn.C17.RTree Ptn.C05.Disc Ptn.C06.Gauge in
+def gaugeAnswer (t : RTree) (which : String) (k : Nat) (init : String) : String :=
+  match eventsOf t which with
+  | none => "bad-op"
+  | some none => "err"
+  | some (some evs) =>
+    match (updatePath t).bind (·.head?) with
+    | none => "err"
+    | some s =>
+      let start : Option (Option (List String × Rec)) :=
+        if init == "canon" then
+          some ((canonRec t s).map fun r => (r.1.map fun o => s!"qr {o.node}>{o.target}", r.2))
+        else match init.splitOn ":" with
+          | ["move", c0] =>
+            c0.toNat?.map fun c0 =>
+              (canonRec t c0).bind fun r => (pathFromTo t c0 s).map fun p =>
+                ((opsOf (hopsAlong p)).map showOp, (grun ⟨c0, r.2⟩ (hopsAlong p)).dir)
+          | _ => none
+      match start with
+      | none => "bad-op"
+      | some none => "err"
+      | some (some (initOps, dir0)) =>
+        let all := (List.replicate k evs).flatten
+        let fin := grun ⟨s, dir0⟩ all
+        let good := canonAtB t dir0 s && allGoodB t ⟨s, dir0⟩ all && canonAtB t fin.dir s && fin.centre == s
+        " ".intercalate ("ok init" :: initOps) ++ " | " ++
+          " ".intercalate ("step" :: (opsOf evs).map showOp) ++ " | rec " ++ showRec t fin.dir ++
+          (if good then " | good" else " | notgood")
+
 def handle (args : List String) : String :=
   match args with
+  | "gauge" :: which :: k :: init :: "tree" :: treeToks =>
+    match k.toNat?, Ptn.C17.parseTree treeToks with
+    | some k, some ft =>
+      match ft.toRTree with
+      | none => "bad-op"
+      | some t => gaugeAnswer t which k init
+    | _, _ => "bad-op"
   | "sweepend" :: variant :: start :: last :: segs =>
     match start.toNat?, last.toNat?, segs.mapM parseSeg with
     | some c, some l, some ss =>
